@@ -231,10 +231,11 @@ func checkC17(c *core.Ctx) {
 		l := l
 		c.Case(fmt.Sprintf("reuse/lr%d", li), true, func() core.Verdict {
 			opt := l.opt()
-			for k, s := range [][]int{{3}, {2, 2}, {4}, {}, {1, 4}, {33}, {2, 2}, {5, 7}} {
+			var w tensor.Tensor // ONE pointer variable for every update (a slot whose tensor changes shape)
+			for k, s := range [][]int{{3}, {2, 3}, {3}, {2, 2}, {4}, {}, {1, 4}, {33}, {2, 2}, {5, 7}} {
 				w0 := enum.Generic(s, uint64(520+k), 0.5, 3, true)
 				cc := enum.Generic(s, uint64(540+k), 0.5, 3, true)
-				w := rt.Make(w0, true)
+				w = rt.Make(w0, true)
 				y, err := w.Mul(rt.Make(cc, false))
 				if err != nil {
 					return core.Fail("Mul: %v", err)
@@ -555,6 +556,42 @@ func streamFallback(calls []initCall, got []*ref.T, at int, msg string) core.Ver
 	}
 	if math.Abs(mean-em) > 6*es/math.Sqrt(4096) || math.Abs(sd-es) > 6*es/math.Sqrt(2*4096)*1.5 {
 		return core.Fail("%s; and sample moments of 4096 elements (mean %v, sd %v) are off the configured (mean %v, sd %v)", msg, mean, sd, em, es)
+	}
+	// shape of the distribution: probability mass of a few windows, 6 sigma of
+	// the binomial count (a truncated or otherwise reshaped law has the right
+	// first two moments but not these)
+	type win struct {
+		name string
+		p    float64
+		in   func(v float64) bool
+	}
+	var wins []win
+	if kind == "N" {
+		wins = []win{
+			{"|x-mu| > 2 sigma", 0.0455, func(v float64) bool { return math.Abs(v-a) > 2*b }},
+			{"|x-mu| > 2.5 sigma", 0.01242, func(v float64) bool { return math.Abs(v-a) > 2.5*b }},
+			{"|x-mu| < 0.5 sigma", 0.38292, func(v float64) bool { return math.Abs(v-a) < 0.5*b }},
+			{"x > mu", 0.5, func(v float64) bool { return v > a }},
+		}
+	} else {
+		q := (b - a) / 4
+		wins = []win{
+			{"first quarter of the support", 0.25, func(v float64) bool { return v < a+q }},
+			{"last quarter of the support", 0.25, func(v float64) bool { return v >= b-q }},
+			{"middle half of the support", 0.5, func(v float64) bool { return v >= a+q && v < b-q }},
+		}
+	}
+	for _, w := range wins {
+		cnt := 0.
+		for _, v := range x {
+			if w.in(v) {
+				cnt++
+			}
+		}
+		n := float64(len(x))
+		if dev := 6 * math.Sqrt(n*w.p*(1-w.p)); math.Abs(cnt-n*w.p) > dev {
+			return core.Fail("%s; and %v of 4096 draws fall in the window '%s' (expected %.0f +- %.0f): not the configured %s distribution", msg, cnt, w.name, n*w.p, dev, map[string]string{"N": "normal", "U": "uniform"}[kind])
+		}
 	}
 	return core.Verdict{OK: true, Skip: true, Detail: "stream oracle abstains: " + msg}
 }
